@@ -517,6 +517,22 @@ def rule_ofstream_typestate(prog, fixture=False):
                                     returns_state = cal.get("n") != "bad"
                             if x.get("k") == "CXXOperatorCallExpr" and x.get("op") == "!" and _mentions_decl(x, did):
                                 returns_state = True
+                            # a never-reassigned bool taken from the stream's state after the close
+                            if x.get("k") == "DeclRefExpr" and x.get("dk") == "Var" and \
+                                    not any(d_ == x["d"] for y in fn.walk() for d_, _ in flow.written_decls(y)
+                                            if y.get("k") not in ("VarDecl", "DeclStmt")):
+                                for vd_ in fn.walk():
+                                    if vd_.get("k") == "VarDecl" and vd_.get("d") == x["d"] and vd_.get("c"):
+                                        sb = ps.before(vd_)
+                                        after_close = sb is not None and sb and all(t_ == "closed" for t_ in sb)
+                                        for y in walk(vd_["c"][0]):
+                                            if y.get("k") == "CXXMemberCallExpr":
+                                                cal = strip(y["c"][0])
+                                                if cal and cal.get("n") in ("good", "fail", "operator bool", "operator!") and cal.get("c") \
+                                                        and _mentions_decl(cal["c"][0], did) and after_close:
+                                                    returns_state = True
+                                            if y.get("k") == "CXXOperatorCallExpr" and y.get("op") == "!" and _mentions_decl(y, did) and after_close:
+                                                returns_state = True
                     if "open" in st:
                         problems.append((where, "the stream may still be open with unflushed data (no close() after the last write)"))
                     elif returns_state:
